@@ -10,10 +10,10 @@ LEVEL = 'other'
 EXPLANATION = ('llsym (real-algebraic) runs the real mj_comVel, mj_objectVelocity, mj_jac, mj_jacSparse (with the real mj_bodyChain), mj_jacSubtreeCom, mj_integratePos and mj_differentiatePos on the symbolic trees of C06 '
                '(chain, fork, two dofs on one body, mixed tree): motion axes cdof, joint velocities, body / site positions, subtree centres of mass and masses are free symbols. z3 decides as polynomial identities: the 6D velocity '
                'mj_objectVelocity reports for a body or a site equals [Jr; Jp] qvel with the Jacobians of mj_jac at the same point; mj_jacSparse equals mj_jac on the body\'s dof chain and the chain holds exactly the ancestor dofs; '
-               'mj_jacSubtreeCom equals the mass-weighted mean of the bodies\' COM Jacobians; and for slide / hinge joints mj_differentiatePos(qpos1 -> integratePos(qpos1, v, dt)) returns v. mj_comPos (symbolic frames, anchors, axes, masses): subtree_com is the mass-weighted mean over the subtree, '
+               'mj_jacSubtreeCom equals the mass-weighted mean of the bodies\' COM Jacobians; and for slide / hinge joints mj_differentiatePos(qpos1 -> integratePos(qpos1, v, dt)) returns v. mj_jacDot / mj_jacDotSparse on a floating body with a hinged child: dense = sparse on the chain, rotational columns use cdof_dot or omega x axis (free-joint rotational dofs). mj_comPos (symbolic frames, anchors, axes, masses): subtree_com is the mass-weighted mean over the subtree, '
                'cinert carries mass and first moment about the tree COM, and the motion axis of a hinge is [axis; axis x (COM - anchor of that joint)] (two hinges with different anchors on one body included), of a slide [0; axis].')
-BOUNDS = {'quick': {'trees': 'chain3, fork3, twodof, mixed5 (see C06)', 'points': 'every body frame (XBODY), body COM (BODY) and one site per tree', 'mj_comPos': 'twodof (hinge+slide and hinge+hinge on one body), chain3'}, 'thorough': {'trees': 'plus chain4, fork4, free3-style multi-dof body', 'mj_comPos': 'plus fork3, mixed5, chain4'}}
-OUTSIDE = ('forward kinematics (mj_kinematics: trigonometric quaternion chains), Jacobians as derivatives of positions (needs that kinematics), mj_jacDot, ball and free joints in integratePos / differentiatePos (quaternion exponential), '
+BOUNDS = {'quick': {'trees': 'chain3, fork3, twodof, mixed5 (see C06)', 'points': 'every body frame (XBODY), body COM (BODY) and one site per tree', 'mj_comPos': 'twodof (hinge+slide and hinge+hinge on one body), chain3', 'mj_jacDot': 'free joint (6 dofs) with a hinged child, any point'}, 'thorough': {'trees': 'plus chain4, fork4, free3-style multi-dof body', 'mj_comPos': 'plus fork3, mixed5, chain4'}}
+OUTSIDE = ('forward kinematics (mj_kinematics: trigonometric quaternion chains), Jacobians as derivatives of positions (needs that kinematics), mj_jacDot as the time derivative of mj_jac (only its column structure is claimed), ball and free joints in integratePos / differentiatePos (quaternion exponential), '
            'frames are proper rotations, constraint-row Jacobians.')
 ASSUMPTIONS = ['real-number semantics', 'cvel is the one mj_comVel computes from the same cdof and qvel (it is computed by the real function inside the unit)', 'dt != 0', 'subtree mass non-zero', 'sleep disabled']
 BUDGET = {'quick': 600, 'thorough': 1500}
@@ -125,6 +125,51 @@ def unit_subtreecom(tier, topo):
     return ck
 
 
+def unit_jacdot(tier):
+    """Jacobian time derivative on a floating body (free joint, 6 dofs) with a hinged child: the dense and the sparse routine agree on the chain, and every rotational column uses the right
+    motion-axis derivative - the stored cdof_dot for translational / hinge dofs, the spatial cross product cvel x cdof for the three rotational dofs of the free joint"""
+    ck = Checker('jacdot_free6h', tier, timeout_s=120, semantics='real')
+    K = build.enum_values('mjJNT_')
+    S, w, M, D = C06.world('free6h', ('cdof', 'cdof_dot', 'cvel', 'subtree_com', 'xpos'))
+    nv, nb = S['nv'], S['nb']
+    M.arr('jnt_type', 'i32', 2, [K['mjJNT_FREE'], K['mjJNT_HINGE']]); M.arr('dof_jntid', 'i32', nv, [0] * 6 + [1]); M.arr('jnt_dofadr', 'i32', 2, [0, 6]); M.set('njnt', 2)
+    jp, _ = w.arr('jacp', 'f64', 3 * nv, [0.0] * (3 * nv)); jr, _ = w.arr('jacr', 'f64', 3 * nv, [0.0] * (3 * nv))
+    sjp, _ = w.arr('sjacp', 'f64', 3 * nv, [7.0] * (3 * nv)); sjr, _ = w.arr('sjacr', 'f64', 3 * nv, [7.0] * (3 * nv))
+    pto, pt = w.arr('point', 'f64', 3)
+    chains = {b: sorted(ancestors(S, b)) for b in (1, 2)}; chobj = {b: w.arr('chain%d' % b, 'i32', len(chains[b]), chains[b])[0] for b in (1, 2)}
+    ex = C06.executor(nv, nb); st = w.to_state(ex)
+    cd = D.arrays['cdof'][3]; cdd = D.arrays['cdof_dot'][3]; cv = D.arrays['cvel'][3]
+    dec = lambda mdl: {'cvel': [str(W.evalnum(mdl, x)) for x in cv], 'cdof': [str(W.evalnum(mdl, x)) for x in cd], 'cdof_dot': [str(W.evalnum(mdl, x)) for x in cdd], 'point': [str(W.evalnum(mdl, x)) for x in pt]}
+    cross = lambda a_, b_: [a_[1] * b_[2] - a_[2] * b_[1], a_[2] * b_[0] - a_[0] * b_[2], a_[0] * b_[1] - a_[1] * b_[0]]
+    for body in (1, 2):
+        chain = chains[body]; NV = len(chain)
+        seqs = C06.run_seq(ex, ck, st.clone(), [('mj_jacDot', [w.P(M.o), w.P(D.o), w.P(jp), w.P(jr), w.P(pto), I(body)]),
+                                                 ('mj_jacDotSparse', [w.P(M.o), w.P(D.o), w.P(sjp), w.P(sjr), w.P(pto), I(body), I(NV), w.P(chobj[body])])])
+        for cur, _k in seqs:
+            ld = lambda o, i, cur=cur: ex.load(cur, w.P(o, 8 * i), FpT('double'))
+            Jp = [[ld(jp, r * nv + c) for c in range(nv)] for r in range(3)]; Jr = [[ld(jr, r * nv + c) for c in range(nv)] for r in range(3)]
+            sp_ = [[ld(sjp, r * NV + c) for c in range(NV)] for r in range(3)]; sr_ = [[ld(sjr, r * NV + c) for c in range(NV)] for r in range(3)]
+            nargs = lambda a: [('ptr', (M.o, 0)), ('ptr', (D.o, 0))] + a
+            seq = [('mj_jacDot', nargs([('ptr', (jp, 0)), ('ptr', (jr, 0)), ('ptr', (pto, 0)), ('i32', body)]), 'void'),
+                   ('mj_jacDotSparse', nargs([('ptr', (sjp, 0)), ('ptr', (sjr, 0)), ('ptr', (pto, 0)), ('i32', body), ('i32', NV), ('ptr', (chobj[body], 0))]), 'void')]
+            outs = [('jacp%d' % k, jp, 8 * k, 'f64', ld(jp, k)) for k in range(3 * nv)] + [('jacr%d' % k, jr, 8 * k, 'f64', ld(jr, k)) for k in range(3 * nv)] + \
+                   [('sjacp%d' % k, sjp, 8 * k, 'f64', ld(sjp, k)) for k in range(3 * NV)] + [('sjacr%d' % k, sjr, 8 * k, 'f64', ld(sjr, k)) for k in range(3 * NV)]
+            rp = C06.seq_replay(w, seq, outs, so_fn=so_sup)
+            ck.prove('body %d: mj_jacDotSparse equals mj_jacDot on the chain columns, mj_jacDot is zero off the chain' % body, cur.pc,
+                     z3.And(*([sp_[r][c] == Jp[r][chain[c]] for r in range(3) for c in range(NV)] + [sr_[r][c] == Jr[r][chain[c]] for r in range(3) for c in range(NV)] +
+                              [Jp[r][c] == 0 for r in range(3) for c in range(nv) if c not in chain] + [Jr[r][c] == 0 for r in range(3) for c in range(nv) if c not in chain])),
+                     site='mj_jacDot:sparse-dense', decode=dec, replay=rp)
+            want = {}
+            for i in chain:
+                if i in (3, 4, 5):      # rotational dofs of the free joint: axis fixed in the moving body, d/dt = omega x axis (angular part of the spatial cross product cvel x cdof)
+                    want[i] = cross(cv[6 * 1:6 * 1 + 3], cd[6 * i:6 * i + 3])
+                else: want[i] = cdd[6 * i:6 * i + 3]
+            ck.prove('body %d: rotational columns = stored cdof_dot for translational / hinge dofs, omega x axis for the rotational dofs of the free joint' % body, cur.pc,
+                     z3.And(*[Jr[r][i] == want[i][r] for i in chain for r in range(3)]), site='mj_jacDot:quaternion-dofs', decode=dec, replay=rp)
+    ck.reach('free symbols', st.pc)
+    return ck
+
+
 def unit_compos(tier, topo, hinge_only=False):
     """mj_comPos: subtree centre of mass is the mass-weighted mean over the subtree; cinert carries the body's mass and first moment about the tree's COM; the motion axis
     of a hinge is [axis; axis x (COM - anchor of THAT joint)] (the velocity of the point COM per unit joint velocity), of a slide [0; axis]"""
@@ -219,5 +264,6 @@ def units(tier):
     for t in (['twodof', 'chain3'] if tier == 'quick' else ['twodof', 'chain3', 'fork3', 'mixed5', 'chain4']):
         u.append(('compos_%s' % t, 'unit_compos', {'topo': t}))
     u.append(('compos_twodof_h', 'unit_compos', {'topo': 'twodof', 'hinge_only': True}))
+    u.append(('jacdot_free6h', 'unit_jacdot', {}))
     u += [('posmaps_nv2', 'unit_posmaps', {'nv': 2})] + ([('posmaps_nv3', 'unit_posmaps', {'nv': 3})] if tier != 'quick' else [])
     return u
